@@ -51,7 +51,7 @@ func (d PacketHandlerError) Unwrap() error {
 
 func (c *Client) handleBundlePackets() (err error) {
 	var packets []pk.Packet
-	for i := 0; i < 4096; i++ {
+	for {
 		var p pk.Packet
 		// Read packets
 		if err := c.Conn.ReadPacket(&p); err != nil {
@@ -63,9 +63,12 @@ func (c *Client) handleBundlePackets() (err error) {
 			goto handlePackets
 		}
 
+		// a bundle holds at most 4096 packets between its delimiters
+		if len(packets) >= 4096 {
+			return errors.New("packet number of a bundle out of limit")
+		}
 		packets = append(packets, p)
 	}
-	return errors.New("packet number of a bundle out of limit")
 
 handlePackets:
 	for i := range packets {
